@@ -151,6 +151,25 @@ func Gen(rng *hx.Rng, depth int) *Node {
 	return n
 }
 
+// GenDeep: containers nested `depth` deep (real mail reaches six or seven levels: forwarded digests of signed
+// alternative/related messages), one or two leaves beside the container at every level, leaves at the bottom
+func GenDeep(rng *hx.Rng, depth int) *Node {
+	if depth <= 0 {
+		return GenLeaf(rng)
+	}
+	n := &Node{Multi: true, Subtype: rng.Pick([]string{"mixed", "alternative", "related", "mixed"})}
+	inner := GenDeep(rng, depth-1)
+	switch rng.Intn(3) {
+	case 0:
+		n.Children = []*Node{inner}
+	case 1:
+		n.Children = []*Node{GenLeaf(rng), inner}
+	default:
+		n.Children = []*Node{GenLeaf(rng), inner, GenLeaf(rng)}
+	}
+	return n
+}
+
 var bcount int
 
 func (n *Node) encoded() string {
